@@ -398,7 +398,7 @@ def shrink(case, still_fails, max_tests=400):
 
 
 def correspond(ctx, binaries, cases, keep=lambda l: True, model_domain='cl', what='callback list',
-               spec_domain='cl-spec', spec_keep=None):
+               spec_domain='cl-spec', spec_keep=None, equiv=None):
     """runs model and implementation(s) on the cases; returns stats.  On a disagreement the
     case is shrunk and reported as a violation (the model is proved to refine the spec, so an
     implementation trace that differs from the model's contradicts the spec on that input;
@@ -428,7 +428,7 @@ def correspond(ctx, binaries, cases, keep=lambda l: True, model_domain='cl', wha
             stats['compared'] += 1
             a = vlib.filt(model[i], keep)
             b = vlib.filt(impl.get(i, ['<missing>']), lambda l: keep(l) or l.startswith('CRASH') or l.startswith('HANG'))
-            if a == b:
+            if a == b or (equiv is not None and equiv(a, b, texts[i])):
                 continue
             stats['disagreements'] += 1
             if reported >= 3:
@@ -442,7 +442,8 @@ def correspond(ctx, binaries, cases, keep=lambda l: True, model_domain='cl', wha
                 if 'error' in m:
                     return False
                 im = vlib.run_impl(binary, {'0': t}, ['0'], timeout=60).get('0', ['<missing>'])
-                return vlib.filt(m, keep) != vlib.filt(im, lambda l: keep(l) or l.startswith('CRASH') or l.startswith('HANG'))
+                fm, fi = vlib.filt(m, keep), vlib.filt(im, lambda l: keep(l) or l.startswith('CRASH') or l.startswith('HANG'))
+                return fm != fi and not (equiv is not None and equiv(fm, fi, t))
             hung = any(l.startswith('HANG') for l in impl.get(i, []))
             small = shrink(case, still, max_tests=40 if hung else 400)
             t = case_text('0', small)
